@@ -245,7 +245,8 @@ impl Module for M {
                     }
                 }
                 // far outside indices
-                for &i in &[1000usize, 1 << 20, 1 << 40] {
+                // (incl. indices whose byte offset overflows usize: they must be rejected, not wrap around)
+                for &i in &[1000usize, 1 << 20, 1 << 40, 1 << 61, 1 << 62, 1 << 63, usize::MAX / 4 + 1, usize::MAX / 3 + 1, usize::MAX / 2 + 1, usize::MAX / 2 + 2, usize::MAX - 1, usize::MAX] {
                     let bs = fmt_list(background(2, 5).iter());
                     emit(format!("raw.load {} {} {} {}", bits, order, bs, i));
                     emit(format!("raw.store {} {} {} {} 1", bits, order, bs, i));
@@ -266,6 +267,8 @@ impl Module for M {
                                 emit(format!("raw.iter {} {} {} -1,{},-1,0", bits, order, bs, k));
                             }
                             emit(format!("raw.iter {} {} {} {},-1,0", bits, order, bs, 1u64 << 40));
+                            emit(format!("raw.iter {} {} {} {},-1,0", bits, order, bs, 1u64 << 62));
+                            emit(format!("raw.iter {} {} {} -1,{},-1", bits, order, bs, (1u64 << 62) - 1));
                         }
                     }
                 }
